@@ -5,6 +5,7 @@
 package history
 
 import (
+	"context"
 	"encoding/xml"
 )
 
@@ -12,6 +13,8 @@ import (
 type Iter struct {
 	err  error
 	msgC chan xml.TokenReader
+	done chan struct{}
+	ctx  context.Context
 	cur  xml.TokenReader
 	h    *Handler
 	id   string
@@ -20,9 +23,16 @@ type Iter struct {
 
 // Next advances the iterator
 func (i *Iter) Next() bool {
-	var ok bool
-	i.cur, ok = <-i.msgC
-	return ok
+	if i.msgC == nil {
+		// The iterator was created with an error and never tracked.
+		return false
+	}
+	select {
+	case i.cur = <-i.msgC:
+		return true
+	case <-i.done:
+		return false
+	}
 }
 
 // Current returns the current message stream read from the iterator.
@@ -45,6 +55,9 @@ func (i *Iter) Result() Result {
 // Future messages will still be received but will be handled by the fallback
 // handler instead.
 func (i *Iter) Close() error {
+	if i.h == nil {
+		return nil
+	}
 	i.h.remove(i.id)
 	return nil
 }
